@@ -2,8 +2,9 @@
    against what C02_Model builds in.  Each lemma is [reflexivity] on the generated boolean: a
    changed hand-over in TcpServer.cc / TcpClient.cc / EPollPoller.cc / Socket.cc / Channel.cc
    breaks it directly. *)
-From Coq Require Import Bool.
-From Muduo Require Import Gen_C02 C02_Model.
+From Coq Require Import Bool List Arith Lia.
+From Muduo Require Import Conn_Model Gen_C02 C02_Model C02_SysProofs.
+Import ListNotations.
 
 (* C02_Model.accept: io = 0 -> establish inline, else enq ... (TEstablish c)  = runInLoop on the io loop *)
 Lemma tie_server_establish_runInLoop : server_establish_runInLoop = true. Proof. reflexivity. Qed.
@@ -28,3 +29,82 @@ Lemma tie_channel_event_locks_tie : channel_event_locks_tie = true. Proof. refle
 (* the poller variant of the current sources: init_sys _ epoll_registers_empty_interest; since the fix
    of F-15 a channel whose interest is empty is not put into the epoll set *)
 Lemma tie_epoll_registers_empty_interest : epoll_registers_empty_interest = false. Proof. reflexivity. Qed.
+
+(* ---- the pool's tear-down (C02_Model.step SrvDestroy / EndBatch of a quitting loop) ------------------------------------
+   SrvDestroy: after the hand-offs, set_stop 1 = ~TcpServer's members die, threadPool_ among them (server_owns_pool), and
+   ~EventLoopThread stores quit_ and joins (loopthread_dtor_quits_then_joins); ~TcpServer does not wait for the hand-offs
+   (server_dtor_waits_for_handoffs = false).  EndBatch of a quitting loop = the exit: `while (!quit_)` is evaluated right
+   after a drain (loop_drain_ends_iteration) and nothing drains pendingFunctors_ afterwards (loop_drains_after_while = false):
+   the queue is dropped.  A repair of EventLoop::loop() / ~TcpServer flips one of these facts and breaks the lemma. *)
+Lemma tie_loop_drains_after_while : loop_drains_after_while = false. Proof. reflexivity. Qed.
+Lemma tie_loop_drain_ends_iteration : loop_drain_ends_iteration = true. Proof. reflexivity. Qed.
+Lemma tie_loopthread_dtor_quits_then_joins : loopthread_dtor_quits_then_joins = true. Proof. reflexivity. Qed.
+Lemma tie_server_dtor_waits_for_handoffs : server_dtor_waits_for_handoffs = false. Proof. reflexivity. Qed.
+Lemma tie_server_owns_pool : server_owns_pool = true. Proof. reflexivity. Qed.
+
+(* ---- affinity of poller-event callbacks ----------------------------------------------------------------------------------
+   C02_Model.ev_step DEFINES the thread of a poller event of connection c to be k_loop k.  What makes that the code's
+   behaviour: (1) server_conn_on_next_loop: the loop recorded in the connection (TcpConnection::loop_, k_loop) is the one
+   getNextLoop() returned and the one connectEstablished is handed to; (2) conn_channel_on_conn_loop: the connection's channel
+   is constructed on that same loop; (3) channel_registers_with_its_loop: a channel registers with (and only with) the poller
+   of its loop_, on that loop's thread; (4) loop_dispatches_own_poller: a loop's thread calls handleEvent exactly on the
+   channels its own poller reported. *)
+Lemma tie_server_conn_on_next_loop : server_conn_on_next_loop = true. Proof. reflexivity. Qed.
+Lemma tie_conn_channel_on_conn_loop : conn_channel_on_conn_loop = true. Proof. reflexivity. Qed.
+Lemma tie_channel_registers_with_its_loop : channel_registers_with_its_loop = true. Proof. reflexivity. Qed.
+Lemma tie_loop_dispatches_own_poller : loop_dispatches_own_poller = true. Proof. reflexivity. Qed.
+
+(* the model's side of (1): accept records in the new connection the loop it queues connectEstablished on (or runs it on) *)
+Lemma accept_same_loop s s' o : accept s = Ok (s', o) ->
+  let c := length (s_conns s) in
+  exists k, getc s' c = Some k /\ k_st k <> Disconnected /\
+    ((k_loop k = 0 /\ o = [OUp 0 c]) \/
+     (k_loop k <> 0 /\ o = [] /\ forall v, getl s (k_loop k) = Some v -> exists v', getl s' (k_loop k) = Some v' /\ q_pend v' = q_pend v ++ [TEstablish c])).
+Proof.
+  unfold accept. destruct (negb (s_srv s)); [discriminate|].
+  set (io := if s_nio s =? 0 then 0 else S (s_rr s)). set (rr := if s_nio s =? 0 then 0 else _).
+  set (s1 := mkSys _ _ _ _ _ _ _ _ _ _). cbv zeta.
+  assert (Hg : getc s1 (length (s_conns s)) = Some (fresh io CbServer)) by (unfold getc, s1; cbn [s_conns]; apply nth_app_new).
+  assert (Hlt : length (s_conns s) < length (s_conns s1)) by (unfold s1; cbn [s_conns]; rewrite app_length; cbn; lia).
+  destruct (io =? 0) eqn:E.
+  - apply Nat.eqb_eq in E. unfold establish. rewrite Hg. cbn [fresh k_alive k_loop k_st negb cstate_eqb]. rewrite E. cbn [Nat.eqb negb].
+    unfold emit. intros H. injection H as <- <-. eexists. split; [apply getc_put_eq, Hlt|].
+    pose proof (chan_update_fields (s_readd s) (set_life (fresh 0 CbServer) Connected 1 0) false true) as F. cbv zeta in F.
+    destruct F as (F1 & _ & _ & _ & _ & F6 & _). cbn [set_life fresh k_st k_loop k_wr k_ups k_downs] in *. rewrite F1, F6.
+    split; [discriminate|]. left. split; reflexivity.
+  - apply Nat.eqb_neq in E. unfold ret. intros H. injection H as <- <-. exists (fresh io CbServer).
+    rewrite getc_enq. split; [exact Hg|]. split; [discriminate|]. right. cbn [fresh k_loop].
+    split; [exact E|]. split; [reflexivity|]. intros v Hv. change (getl s io) with (getl s1 io) in Hv.
+    rewrite (getl_enq_eq s1 io _ v Hv). eexists. split; [reflexivity|]. reflexivity.
+Qed.
+
+(* the model's side of (2)-(4), true by the definition of ev_step: every callback of a poller event of c carries k_loop of c *)
+Lemma ev_step_thread strict s c e s' o : ev_step strict s c e = Ok (s', o) ->
+  exists k, getc s c = Some k /\
+  forall thr c', In (OUp thr c') o \/ In (ODown thr c') o \/ In (OMsg thr c') o -> c' = c /\ thr = k_loop k.
+Proof.
+  intros Hev. unfold ev_step in Hev. destruct (getc s c) as [k|] eqn:Hg; [|discriminate Hev]. exists k. split; [reflexivity|].
+  destruct (negb _); [discriminate Hev|].
+  assert (Hhc : handle_close s (k_loop k) c = Ok (s', o) ->
+            forall thr c', In (OUp thr c') o \/ In (ODown thr c') o \/ In (OMsg thr c') o -> c' = c /\ thr = k_loop k).
+  { clear Hev. unfold handle_close. rewrite Hg. destruct (negb (k_loop k =? k_loop k)); [discriminate|]. destruct (negb (k_closable k)); [discriminate|].
+    unfold bind, emit. match goal with |- match close_cb ?x ?t ?y with _ => _ end = _ -> _ => destruct (close_cb x t y) as [[s2 o2]| |] eqn:Ec end; try discriminate.
+    intros Hx. injection Hx as <- <-.
+    assert (Ho2 : o2 = []).
+    { unfold close_cb in Ec. destruct (getc (put s c _) c) as [k1|]; [|discriminate Ec]. destruct (k_ccb k1).
+      - destruct (_ && _); [discriminate Ec|]. destruct (k_loop k =? 0); [|injection Ec as _ <-; reflexivity].
+        unfold remove_in_loop in Ec. destruct (negb (s_srv _)); [discriminate Ec|]. destruct (negb _); [discriminate Ec|].
+        destruct (getc (put s c _) c) as [k2|]; [|discriminate Ec]. destruct (negb (k_mapped k2)); [discriminate Ec|]. injection Ec as _ <-. reflexivity.
+      - destruct (negb (s_cli _)); [discriminate Ec|]. destruct (negb _); [discriminate Ec|]. destruct (s_cliconn _) as [c'|]; [|discriminate Ec].
+        destruct (negb (c' =? c)); [discriminate Ec|]. injection Ec as _ <-. reflexivity.
+      - injection Ec as _ <-. reflexivity. }
+    subst o2. cbn [app]. intros thr c' [Hi|[Hi|Hi]]; cbn in Hi; destruct Hi as [Hi|[]]; try discriminate Hi. injection Hi as <- <-. auto. }
+  destruct e.
+  - destruct (k_rd k); [|discriminate Hev]. unfold emit in Hev. injection Hev as <- <-.
+    intros thr c' [Hi|[Hi|Hi]]; cbn in Hi; destruct Hi as [Hi|[]]; try discriminate Hi. injection Hi as <- <-. auto.
+  - destruct (k_rd k); [|discriminate Hev]. destruct (_ && _); [discriminate Hev|]. apply (Hhc Hev).
+  - destruct (k_rd k); [|discriminate Hev]. injection Hev as <- <-. intros thr c' [[]|[[]|[]]].
+  - destruct (_ && _); [discriminate Hev|]. apply (Hhc Hev).
+  - injection Hev as <- <-. intros thr c' [[]|[[]|[]]].
+  - destruct (k_wr k); [|discriminate Hev]. destruct drained; injection Hev as <- <-; intros thr c' [[]|[[]|[]]].
+Qed.
